@@ -33,6 +33,7 @@ type Harness struct {
 	BV            bool
 	Tiers         string // "quick,thorough" or "thorough"
 	QueryTimeout  int    // ms
+	Unblock       []string
 	MaxPaths      int
 	Expect        string          // "" or "violation" (mutation self-tests)
 	StrLen        int             // string length bound of the bounded (stage B) encoding
@@ -298,6 +299,8 @@ func (w *World) load() error {
 								for _, f := range strings.Split(v, ",") {
 									h.Havoc[f] = true
 								}
+							case "unblock": // packages whose code this harness executes although blocked by default
+								h.Unblock = append(h.Unblock, strings.Split(v, ",")...)
 							case "ideal":
 								h.Ideal = true
 							case "compose":
